@@ -191,6 +191,19 @@ def as_list(x):
     return None
 
 
+def is_discrete(x):
+    """does a sequential field take discrete values (strings, flags, integer codes)?  Decided from its type only."""
+    if isinstance(x, np.ndarray):
+        if x.dtype.kind in "biuSU":
+            return True
+        if x.dtype.kind == "O":
+            return any(isinstance(v, str) for v in x.tolist())
+        return False
+    if isinstance(x, (list, tuple)):
+        return len(x) > 0 and all(isinstance(v, (bool, int, str, np.integer, np.bool_)) for v in x)
+    return False
+
+
 def is_scalar(x):
     return x is None or isinstance(x, (bool, int, float, str, np.generic)) or (isinstance(x, np.ndarray) and x.ndim == 0)
 
